@@ -86,6 +86,16 @@ struct Shapes {
     deep: Option<Vec<HashMap<String, Option<Inner>>>>,
 }
 
+/// items that take no bytes on the wire (the block writers must count items, not bytes)
+#[derive(Serialize, Deserialize, AvroSchema, Debug, Clone)]
+struct Empties {
+    before: i32,
+    units: Vec<()>,
+    nothings: Vec<Nothing>,
+    unit_map: HashMap<String, ()>,
+    after: i32,
+}
+
 /// tuples (the derive does not support them: the schema is written by hand)
 #[derive(Serialize, Deserialize, Debug, Clone)]
 struct Tups {
@@ -223,6 +233,18 @@ impl Gen for Shapes {
             } else {
                 None
             },
+        }
+    }
+}
+
+impl Gen for Empties {
+    fn make(rng: &mut Rng) -> Self {
+        Empties {
+            before: crate::genr::gen_int(rng),
+            units: vec_of(rng, 5, |_| ()),
+            nothings: vec_of(rng, 5, |_| Nothing),
+            unit_map: vec_of(rng, 4, |r| (small_string(r), ())).into_iter().collect(),
+            after: crate::genr::gen_int(rng),
         }
     }
 }
@@ -431,6 +453,7 @@ pub fn run(args: &[String]) -> i32 {
     one_type::<Scalars>(&mut out, &mut rng, n, "Scalars", true, true, Scalars::get_schema);
     one_type::<Collections>(&mut out, &mut rng, n, "Collections", true, true, Collections::get_schema);
     one_type::<Shapes>(&mut out, &mut rng, n, "Shapes", true, false, Shapes::get_schema);
+    one_type::<Empties>(&mut out, &mut rng, n, "Empties", true, false, Empties::get_schema);
     one_type::<Tups>(&mut out, &mut rng, n, "Tups", true, false, || Schema::parse_str(TUPS_SCHEMA).unwrap());
     one_type::<Skippy>(&mut out, &mut rng, n, "Skippy", true, true, Skippy::get_schema);
     one_type::<Beyond>(&mut out, &mut rng, n, "Beyond", false, false, Beyond::get_schema);
